@@ -347,7 +347,7 @@ def main(argv=None):
                   "bounded exhaustive enumeration: nothing is claimed outside the stated alphabets and bounds"],
               wall_s=round(wall, 2), violations=int(total.get("n_violations", 0)))
     vacuous = cov["evaluations"] < 1 or not cov["samples"] or (getattr(mod, "MIN_OUTCOMES", 2) > outcomes)
-    if vacuous:
+    if vacuous and not new and not known:
         print(f"ENGINE-ERROR property={pid} vacuous exploration: evaluations={cov['evaluations']} outcomes={outcomes}")
         return 2
     if not args.no_evidence:
